@@ -20,7 +20,7 @@ func init() {
 			"loop-carried dependences between iterations that reuse one acquisition site"},
 		Run: func(p *core.Program, r *core.Report) {
 			res := runLockset(p)
-			emitLockset(res, r, map[string]bool{"AT1": true, "AT2": true, "AT3": true, "LK1": true, "LK4": true}, containerTypes)
+			emitLockset(res, r, map[string]bool{"AT1": true, "AT2": true, "AT3": true, "LK1": true, "LK2": true, "LK3": true, "LK4": true, "LK5": true}, containerTypes)
 			// region counts per operation (evidence)
 			regions := map[string]int{}
 			multi := []string{}
